@@ -23,10 +23,10 @@ RULE = (
     "point before the first input (rule-supplied value) or n >= 3"
 )
 SPACE = {
-    "quick": "(a) 16 layouts x n in {2,3,4} x valid shifts x 5 rules x supply routes, to explicit/omitted; (b) 17 dim arrangements x 8 shifts x 2 rules; (c) ordered selections of 2-3 axes x shift combos x 3 rule sets; laws: inverse (layouts with outer), order independence, cumint/integrate on all layouts with a metric",
-    "thorough": "n in {2..6}; (c) from every start position",
+    "quick": "(a) 16 layouts x n in {2,3,4,5} x valid shifts x 5 rules x supply routes, to explicit/omitted; (b) 17 dim arrangements x 8 shifts x 2 rules; (c) ordered selections of 2-3 axes x shift combos x 3 rule sets; laws: inverse (layouts with outer), order independence, cumint/integrate on all layouts with a metric",
+    "thorough": "n in {2..7}; (c) from every start position",
 }
-BOUNDS = {"quick": {"n": [2, 3, 4]}, "thorough": {"n": [2, 3, 4, 5, 6]}}
+BOUNDS = {"quick": {"n": [2, 3, 4, 5]}, "thorough": {"n": [2, 3, 4, 5, 6, 7]}}
 ASSUMPTIONS = [
     "cumsum is linear in data: basis rows extract the operator, a generic row checks linearity",
     "integer-valued float64 data so sums are exact; metric-weighted laws use dyadic metrics (exact) or rtol 1e-12",
